@@ -33,7 +33,8 @@ ASSUMPTIONS = [
 ]
 REQUIRED_MONITORS = ["compose:list-vs-successive", "compose:vs-concatenated", "reset:like-fresh", "snapshot:run",
                      "snapshot:compile", "rerun:fresh-engine", "fault:p0-restored", "stream:equal",
-                     "compose3:segmentations-agree", "interleave:other-engine-does-not-interfere"]
+                     "compose3:segmentations-agree", "interleave:other-engine-does-not-interfere",
+                     "snapshot:compile:gaussian_unitary", "snapshot:compile:gaussian_merge"]
 
 ONE = ["Dgate", "Sgate", "Rgate", "Xgate", "Zgate", "Pgate", "Fouriergate", "LossChannel"]
 TWO = ["BSgate", "S2gate", "CXgate", "CZgate", "MZgate"]
@@ -518,6 +519,19 @@ def run_case(case, rep, env):
                 if diff:
                     V("Program.compile", "source-modified", "compile(optimize=%s) changed the user's program: %s" % (opt, diff))
                     return
+            # the Gaussian-merging compilers work on the same shared operation objects (a refusal is not judged here: C11)
+            for other in ("gaussian_unitary", "gaussian_merge", "passive"):
+                for rnd_ in range(2):
+                    try:
+                        P.compile(compiler=other)
+                    except Exception as e:
+                        rep.observe("compile-raised:%s:%s" % (other, type(e).__name__))
+                        break
+                    rep.monitor("snapshot:compile:" + other)
+                    diff = snap_diff(before, prog_snap(P))
+                    if diff:
+                        V("Program.compile", "source-modified:" + other, "compile(compiler=%r) changed the user's program: %s" % (other, diff))
+                        return
         results = []
         for k in range(2):
             with Scripted(env) as sc:
